@@ -232,18 +232,18 @@ static bool GC_Mem_Ptr(struct GC* gc, var ptr) {
 
 }
 
-static void GC_Rem_Ptr(struct GC* gc, var ptr) {
+static bool GC_Rem_Ptr(struct GC* gc, var ptr) {
   
   /* Pending in the sweep in progress: finalise it now, the sweep skips it */
   for (size_t i = 0; i < gc->freenum; i++) {
     if (gc->freelist[i] is ptr) {
       gc->freelist[i] = NULL;
       dealloc(destruct(ptr));
-      return;
+      return true;
     }
   }
   
-  if (gc->nslots is 0) { return; }
+  if (gc->nslots is 0) { return false; }
   
   uint64_t i = GC_Hash(ptr) % gc->nslots;
   uint64_t j = 0;
@@ -251,7 +251,7 @@ static void GC_Rem_Ptr(struct GC* gc, var ptr) {
   while (true) {
     
     uint64_t h = gc->entries[i].hash;
-    if (h is 0 or j > GC_Probe(gc, i, h)) { return; }
+    if (h is 0 or j > GC_Probe(gc, i, h)) { return false; }
     if (gc->entries[i].ptr is ptr) {
       
       var freeitem = gc->entries[i].ptr;
@@ -273,7 +273,7 @@ static void GC_Rem_Ptr(struct GC* gc, var ptr) {
       gc->nitems--;
       
       dealloc(destruct(freeitem));
-      return;
+      return true;
     }
     
     i = (i+1) % gc->nslots; j++;
@@ -528,10 +528,21 @@ static void GC_Set(var self, var key, var val) {
 
 static void GC_Rem(var self, var key) {
   struct GC* gc = self;
-  if (not gc->running) { return; }
-  GC_Rem_Ptr(gc, key);
-  GC_Resize_Less(gc);
-  gc->mitems = gc->nitems + gc->nitems / 2 + 1;
+  
+  if (GC_Rem_Ptr(gc, key)) {
+    GC_Resize_Less(gc);
+    gc->mitems = gc->nitems + gc->nitems / 2 + 1;
+    return;
+  }
+  
+  /*
+  ** Not registered: the object was allocated while the collector was stopped
+  ** and is finalised here. During a sweep an unknown object is one the sweep
+  ** has already finalised (an owner deleting what it owns), so it is left.
+  */
+  if (gc->freelist is NULL) {
+    del_raw(key);
+  }
 }
 
 static bool GC_Mem(var self, var key) {
